@@ -82,9 +82,10 @@ def group_loop_handler(ex, s, fr, it):
     index = fr.env["index"]
     idx0 = list(st.rec(index)["items"])
     self_obj = fr.env["self"]
-    kwmode = "payload" not in fr.env["kwargs"].items if isinstance(fr.env.get("kwargs"), KwMap) else False
+    kw = fr.env.get("kwargs")
+    kwmode = isinstance(kw, KwMap) and kw.sym is not None
     if kwmode:
-        raise Unsupported("symbolic group count in keyword mode")
+        return _kw_group_loop(ex, s, fr, N, G, gdict, idx0, self_obj)
     label = f"{fr.finfo.qualname}/loop1"
     which = st.choice(2, "group-loop")
     if which == 0:
@@ -128,11 +129,145 @@ def group_loop_handler(ex, s, fr, it):
     return True
 
 
+def fam_name(base, idx):
+    """attribute name of a repeated attribute: base + '_' + two-digit index per nesting level (as the README states)"""
+    from .values import mk_str
+    pieces = [base]
+    for i in idx:
+        if isinstance(i, int):
+            pieces.append(f"_{i:02d}")
+        else:
+            pieces += ["_", Fmt(zint(i), "02d")]
+    return mk_str(pieces)
+
+
+def _kw_group_loop(ex, s, fr, N, G, gdict, idx0, self_obj):
+    """keyword mode: each repeat appends G bytes.  Cut: before an arbitrary repeat i the payload is
+    prefix + (i * G arbitrary bytes); the repeat is run once and the G appended bytes are decoded by the layout
+    oracle and compared with the keyword values of index i+1; after the loop the payload is prefix + N*G bytes."""
+    from contracts.oracle import expected_layout
+    from .exec import _Break, _Continue
+    st = ex.st
+    label = f"{fr.finfo.qualname}/loop1[kw]"
+    rec = st.rec(self_obj)
+    prefix = rec["fields"]["_payload"]
+    prefix = prefix if isinstance(prefix, SBytes) else SBytes.lit(bytes(prefix))
+    index = fr.env["index"]
+    off0 = fr.env["offset"]
+    prov = st.ghost.get("kwprovider")
+    st.ghost["kw_symbolic_group"] = True
+    which = st.choice(2, "kw-group-loop")
+    if which == 0:
+        i = z3.Int(fresh_name("rep"))
+        st.assume(mk_bool(z3.And(i >= 0, i < N)))
+        st.labels.append("kw-group-loop:iteration")
+        earlier = SBytes.view(Base("earlier_repeats"), 0, z3.simplify(i * G))
+        before = prefix.concat(earlier)
+        rec["fields"]["_payload"] = before
+        fr.env["offset"] = mk_int(zint(off0) + i * G)
+        ex.assign(s.target, SInt(i), fr)
+        try:
+            ex.exec_block(s.body, fr)
+        except (_Break, _Continue):
+            raise Unsupported("break/continue in group loop")
+        after = rec["fields"]["_payload"]
+        nseg = len(before.segs)
+        same_prefix = isinstance(after, SBytes) and len(after.segs) >= nseg and \
+            all(a.key() == b.key() for a, b in zip(after.segs[:nseg], before.segs))
+        st.prove(f"{label}:appends-only", same_prefix, kind="inv-preserved",
+                 detail="a repeat only appends to the payload (earlier bytes untouched)")
+        if not same_prefix:
+            raise PathEnd()
+        appended = SBytes(after.segs[nseg:])
+        st.prove(f"{label}:appends-G-bytes", mk_bool(zint(appended.length()) == G), kind="inv-preserved",
+                 detail=f"one repeat appends exactly {G} bytes")
+        st.prove(f"{label}:inv-preserved:offset", mk_bool(zint(fr.env["offset"]) == zint(off0) + (i + 1) * G),
+                 kind="inv-preserved")
+        if prov is None or appended.concrete_len() != G:
+            raise Unsupported(f"keyword group loop: appended bytes not of concrete length ({appended!r})")
+        if True:
+            exp = expected_layout(ex, gdict, appended, True, None)
+            idx = list(idx0[:-1]) + [i + 1]
+            for bf in _bitfields_of(gdict):
+                _check_kw_bitfield(ex, prov, label, bf.name, bf.flags, exp.leaves[bf.name]["raw"],
+                                   lambda fn, idx=idx: fam_name(fn, idx), bf.name + "_NN")
+            for name, leaf in exp.leaves.items():
+                typ = leaf["typ"]
+                if typ == "flag" or _is_bitfield(gdict, name):
+                    continue
+                _check_kw_leaf(ex, prov, f"{label}", fam_name(name, idx), name + "_NN", leaf)
+            for base, spec in exp.families.items():
+                if base.startswith("__count__"):
+                    continue
+                cnt = exp.families.get("__count__" + spec.group)
+                if isinstance(cnt, int):
+                    for j in range(1, cnt + 1):
+                        raw = spec.fn((j,), raw_only=True)
+                        leaf = {"raw": raw, "typ": spec.typ, "scale": spec.scale}
+                        if spec.typ == "flag" and base.startswith("reserved"):
+                            continue
+                        _check_kw_leaf(ex, prov, f"{label}", fam_name(base, idx + [j]), base + "_NN_MM", leaf)
+        raise PathEnd()
+    st.labels.append("kw-group-loop:exit")
+    rec["fields"]["_payload"] = prefix.concat(SBytes.view(Base("all_repeats"), 0, z3.simplify(N * G)))
+    fr.env["offset"] = mk_int(zint(off0) + N * G)
+    st.rec(index)["items"] = list(idx0)
+    fr.env[s.target.id] = mk_int(N - 1)
+    return True
+
+
+def _check_kw_bitfield(ex, prov, label, bf_name, flags, raw_bytes, name_of, shown):
+    """the built bitfield, read as a little-endian integer, equals the sum of the supplied flag values shifted to
+    their bit offsets (reserved flags and omitted flags contribute 0): every flag sits in its own slot"""
+    st = ex.st
+    u = ex.bm.int_from_bytes(raw_bytes, "little", signed=False)
+    total = z3.IntVal(0)
+    bo = 0
+    for fn, w in flags:
+        eff = prov.effective(name_of(fn), 0)
+        total = total + zint(eff) * (1 << bo)
+        bo += w
+    st.prove(f"{label}/C03:field:{shown}", mk_bool(zint(u) == total), kind="ensures",
+             detail=f"bitfield {shown} == sum of supplied flag values << their offsets", assume_after=False)
+
+
+def _bitfields_of(defn):
+    from contracts.oracle import parse_def, Bitfield
+    return [e for e in parse_def(defn) if isinstance(e, Bitfield)]
+
+
+def _check_kw_leaf(ex, prov, label, key, shown, leaf):
+    """the bytes just built for attribute `key` decode (raw) to the keyword value, or to the nominal when omitted"""
+    from .values import fdiv, fconst, f2i, i2f
+    st = ex.st
+    typ, scale, raw = leaf["typ"], leaf["scale"], leaf["raw"]
+    if typ == "CH" or raw is None:
+        return
+    if typ == "flag" or typ[0] in "EILU":
+        eff = prov.effective(key, 0)
+        if isinstance(eff, SFloat):
+            c = fconst(float(scale)) if not isinstance(scale, int) else i2f(z3.IntVal(scale))
+            want = mk_int(f2i(fdiv(eff.e, c)))
+        elif isinstance(scale, int) and scale != 1:
+            want = mk_int(zint(eff) / scale)  # supplied value is raw * scale exactly
+        else:
+            want = eff
+        st.prove(f"{label}/C03:field:{shown}", ex.bm.equals(raw, want), kind="ensures",
+                 detail=f"{shown} in the built payload == supplied value (0 when omitted)", assume_after=False)
+    elif typ[0] in "XC":
+        n = int(typ[1:4])
+        st.prove(f"{label}/C03:field:{shown}", ex.bm.equals(raw, prov.effective(key, bytes(n))), kind="ensures",
+                 detail=f"bytes of {shown} == supplied (zeros when omitted)", assume_after=False)
+
+
 def _same_val(a, b):
     if isinstance(a, int) and isinstance(b, int):
         return a == b
     try:
-        return zint(a).eq(zint(b))
+        if zint(a).eq(zint(b)):
+            return True
+        d = z3.simplify(zint(a) - zint(b))
+        return z3.is_int_value(d) and d.as_long() == 0
     except Exception:
         return False
 
@@ -492,4 +627,462 @@ def replay_instance(o):
         from contracts.specs import n_fletcher8
         body = cls + mid + len(pl).to_bytes(2, "little") + pl
         info["reproduced"] = ser != b"\xb5\x62" + body + n_fletcher8(body) or msg._mode != mode
+    return info
+
+
+# =========================================================================================================
+# keyword mode (C03 / C04 / C15 / C17): UBXMessage(cls, id, mode, **kwargs) with a symbolic keyword map
+# =========================================================================================================
+DISCRIMINATORS = ("type", "version", "datumNum", "tpIdx")
+
+
+class KwProvider:
+    """ghost map  name -> (present, value).  Every attribute may or may not be supplied; a supplied value is of the
+    field's own kind and in its range (C03's premise) unless `anyvals` lists the name (C15: arbitrary Python scalar).
+    Repeated attributes are indexed families (uninterpreted functions of the index tuple)."""
+
+    def __init__(self, ex, anyvals=()):
+        self.ex = ex
+        self.meta = {}  # name -> (typ, scale, width)   from the selected definition
+        self.top = {}  # name -> (present SBool, value)
+        self.fam = {}  # base -> (present fn, value fn)
+        self.anyvals = set(anyvals)
+        self.queried = []
+        self.shared = {}
+        self.raw_of = {}
+
+    # -- configuration from the selected definition
+    def set_definition(self, defn):
+        from contracts.oracle import parse_def, Leaf, Bitfield, Group
+
+        def put(name, m):
+            if name in self.meta:
+                self.shared.setdefault(name, [self.meta[name]]).append(m)  # one keyword feeds two fields
+                a, b = self._range(self.meta[name][0], self.meta[name][2]), self._range(m[0], m[2])
+                if (b[1] - b[0]) >= (a[1] - a[0]):
+                    return  # keep the narrower range: a value both fields can represent
+            self.meta[name] = m
+
+        def walk(entries):
+            for e in entries:
+                if isinstance(e, Leaf):
+                    put(e.name, (e.typ, e.scale, None))
+                elif isinstance(e, Bitfield):
+                    put(e.name, (e.typ, None, None))
+                    for fn, w in e.flags:
+                        put(fn, ("flag", None, w))
+                else:
+                    walk(e.entries)
+
+        walk(parse_def(defn))
+
+    def _range(self, typ, width):
+        if typ == "flag":
+            return 0, 1 << width
+        if typ == "CH" or typ[0] not in "EILUX":
+            return 0, 1 << 64
+        n = int(typ[1:4])
+        if typ[0] == "I":
+            return -(1 << (8 * n - 1)), 1 << (8 * n - 1)
+        return 0, 1 << (8 * n)
+
+    def _fresh_value(self, name, default, idx=None):
+        """symbolic supplied value of the right kind for `name`"""
+        ex, st = self.ex, self.ex.st
+        typ, scale, width = self.meta.get(name, (None, None, None))
+        tag = name if idx is None else f"{name}_" + "_".join(str(i) for i in idx)
+        if name in self.anyvals:
+            # C15: an arbitrary Python scalar for this keyword
+            from .values import FSort, Opaque
+            k = st.choice(6, "any-kind")
+            st.labels.append(f"{name}:kind{k}")
+            if k == 0:
+                e = z3.Int(fresh_name("kwany_" + tag))
+                st.inputs["kwany_" + tag] = ("int", e)
+                return SInt(e)
+            if k == 1:
+                return SStr((Opaque("any-text"),))
+            if k == 2:
+                b, ln = Base("kwanyb_" + tag), z3.Int(fresh_name("kwanyb_len"))
+                st.assume(mk_bool(ln >= 0))
+                return SBytes.view(b, 0, ln)
+            if k == 3:
+                return SFloat(z3.Const(fresh_name("kwanyf_" + tag), FSort))
+            if k == 4:
+                return st.alloc("list", None, items=[1, 2])
+            return (1, 2)
+        if typ is None:
+            if name in DISCRIMINATORS:
+                typ, scale, width = "U001", None, None
+            else:
+                return None
+        if typ == "flag" or (typ[0] in "EILU" and (scale is None or scale == 1)):
+            e = z3.Int(fresh_name("kw_" + tag))
+            lo, hi = self._range(typ, width)
+            st.assume(mk_bool(z3.And(e >= lo, e < hi)))
+            st.inputs["kw_" + tag] = ("int", e)
+            return SInt(e)
+        if typ[0] in "EILU" and isinstance(scale, int):
+            # integer scale factor: the parser reports raw * scale (an int); in range: an exact multiple whose raw fits
+            r = z3.Int(fresh_name("kwraw_" + tag))
+            lo, hi = self._range(typ, None)
+            st.assume(mk_bool(z3.And(r >= lo, r < hi)))
+            st.inputs["kwraw_" + tag] = ("int", r)
+            self.raw_of.setdefault(tag, r)
+            return SInt(z3.simplify(r * scale))
+        if typ[0] in "EILU":
+            # scaled field: the supplied value is a float (what the parser reports); in range means its raw image fits
+            from .values import FSort, fdiv, fconst, f2i, i2f
+            f = z3.Const(fresh_name("kwf_" + tag), FSort)
+            lo, hi = self._range(typ, None)
+            c = fconst(float(scale)) if not isinstance(scale, int) else i2f(z3.IntVal(scale))
+            raw = f2i(fdiv(f, c))
+            st.assume(mk_bool(z3.And(raw >= lo, raw < hi)))
+            return SFloat(f)
+        if typ == "CH":
+            return None
+        n = int(typ[1:4])
+        if typ[0] in "XC":
+            b = Base("kw_" + tag)
+            st.inputs["kw_" + tag] = ("bytes", b, z3.IntVal(n))
+            return SBytes.view(b, 0, n)
+        if typ[0] == "R":
+            from .values import FSort
+            f = z3.Const(fresh_name("kwr_" + tag), FSort)
+            if n == 4:
+                from contracts.specs import FITS32
+                st.assume(mk_bool(FITS32(f)))  # a value the single-precision field can hold
+            return SFloat(f)
+        if typ[0] == "A":
+            items = []
+            for i in range(n):
+                e = z3.Int(fresh_name(f"kwa_{tag}_{i}"))
+                st.assume(mk_bool(z3.And(e >= 0, e <= 255)))
+                items.append(SInt(e))
+            return st.alloc("list", None, items=items)
+        return None
+
+    def _entry(self, key, default):
+        """(present, value) for a concrete name or a family member name"""
+        if isinstance(key, str):
+            if key not in self.top:
+                v = self._fresh_value(key, default)
+                p = SBool(z3.Bool(fresh_name("has_" + key))) if v is not None else False
+                self.top[key] = (p, v)
+            return self.top[key]
+        (base, arity), idx = self.ex.bm.family_key(key)
+        memo = self.fam.setdefault(base, [])
+        for (i0, p, v) in memo:
+            if len(i0) == len(idx) and all(_same_val(a, b) for a, b in zip(i0, idx)):
+                return p, v
+        v = self._fresh_value(base, default, idx=tuple("i" if not isinstance(i, int) else i for i in idx))
+        p = SBool(z3.Bool(fresh_name("has_" + base))) if v is not None else False
+        memo.append((idx, p, v))
+        return p, v
+
+    # -- KwMap interface
+    def length(self, bm):
+        e = z3.Int(fresh_name("nkwargs"))
+        bm.st.assume(mk_bool(e >= 1))
+        return SInt(e)
+
+    def contains(self, bm, key):
+        if key == "payload":
+            return False
+        p, v = self._entry(key, None)
+        return p
+
+    def get(self, bm, key, default):
+        self.queried.append(key)
+        if default is KeyError:
+            p, v = self._entry(key, None)
+            if p is False or v is None or not bm.st.branch(p):
+                bm.raise_(KeyError, key)
+            return v
+        return self.effective(key, default)
+
+    def effective(self, key, nominal):
+        """the value the walker sees for `key`: the supplied one if present, else the nominal -- merged into ONE
+        symbolic value (no path split per attribute): omitted == supplied-with-nominal at the level of values"""
+        from .values import i2f, fconst, fdiv, f2i, FSort
+        st = self.ex.st
+        p, v = self._entry(key, nominal)
+        if p is False or v is None:
+            return nominal
+        if isinstance(key, str) and key in self.anyvals:
+            return v if st.branch(p) else nominal  # arbitrary-kind value: no merge with the nominal
+        memo = self.__dict__.setdefault("_eff", {})
+        mk = id(v)
+        if mk in memo:
+            return memo[mk][1]
+        pe = p.e
+        if isinstance(v, SInt):
+            out = mk_int(z3.If(pe, v.e, z3.IntVal(int(nominal) if isinstance(nominal, int) else 0)))
+        elif isinstance(v, SFloat):
+            if isinstance(nominal, float):
+                nom = fconst(nominal)
+                from contracts.specs import FITS32
+                st.assume(mk_bool(FITS32(nom)))  # 0.0 is representable in single precision
+            else:
+                nom = i2f(z3.IntVal(0))
+                name = key if isinstance(key, str) else self.ex.bm.family_key(key)[0][0]
+                typ, scale, _ = self.meta.get(name, (None, None, None))
+                if scale is not None:
+                    c = fconst(float(scale)) if not isinstance(scale, int) else i2f(z3.IntVal(scale))
+                    st.assume(mk_bool(f2i(fdiv(nom, c)) == 0))  # int(0 / scale) == 0
+            out = SFloat(z3.If(pe, v.e, nom))
+        elif isinstance(v, SBytes):
+            n = v.concrete_len()
+            out = SBytes.cells([z3.If(pe, v.at(k), z3.IntVal(0)) for k in range(n)])
+        elif isinstance(v, Ref) and v.kind == "list":
+            items = st.rec(v)["items"]
+            out = st.alloc("list", None, items=[mk_int(z3.If(pe, zint(x), z3.IntVal(0))) for x in items])
+        else:
+            out = v
+        memo[mk] = (v, out)
+        return out
+
+
+SELECTOR_KEYWORD = {"get_mga_dict": "type", "get_rxmpmp_dict": "version", "get_rxmpmreq_dict": "version",
+                    "get_rxmrlm_dict": "type", "get_relposned_dict": "version", "get_timvcocal_dict": "type",
+                    "get_cfgdat_dict": "datumNum", "get_secsig_dict": "version", "get_alpsrv_dict": "type",
+                    "get_cfgtp5_dict": "tpIdx"}
+
+
+def _discriminator_of(mode, key):
+    """the keyword the variant selector of this class/ID inspects (arbitrary-kind value in the C15 flavour)"""
+    vmod = extract.load_module("pyubx2.ubxvariants")[0]
+    f = vmod.VARIANTS.get(mode, {}).get(key)
+    nm = SELECTOR_KEYWORD.get(getattr(f, "__name__", ""))
+    return (nm,) if nm else DISCRIMINATORS
+
+
+def _kw_after_get_dict(ex, fr, result):
+    prov = ex.st.ghost.get("kwprovider")
+    if prov is not None and isinstance(result, dict):
+        prov.set_definition(result)
+        ex.st.ghost["kw_pdict"] = result
+
+
+def kwargs_unit(ctx, res, col, reg, mode, key, flavour="typed"):
+    """keyword construction for one class/ID: every attribute possibly supplied with an in-range value of its kind.
+    Obligations (C03): construction succeeds; the payload has the definition's length and every field of the built
+    payload decodes (raw) to the supplied value or to the nominal value when omitted; (C04) length/checksum contract;
+    (C17) SETPOLL classification of the built frame."""
+    install_instance(reg)
+    reg.post_hooks[M + "_get_dict"] = _kw_after_get_dict
+    cls = msg_class()
+    finfo = extract.get_function(M + "__init__")
+    contract = reg.contracts[M + "__init__"]
+    label = instance_label(mode, key).replace("init[", "kwinit[")
+
+    def body(ex, fres):
+        st = ex.st
+        ex._defaults_module = finfo.module
+        st.ghost["finite_floats"] = True  # non-discriminator values are typed and finite in both flavours
+        prov = KwProvider(ex, anyvals=_discriminator_of(mode, key) if flavour == "anydisc" else ())
+        st.ghost["kwprovider"] = prov
+        obj = ex.bm.new_object(cls)
+        kw = KwMap({}, sym=prov)
+        env = {"self": obj, "ubxClass": key[0:1], "ubxID": key[1:2], "msgmode": mode, "parsebitfield": True, "kwargs": kw}
+        cfr = ContractFrame(finfo, env)
+        snapshot_olds(ex, contract, cfr, contract.ensures)
+        st.writes = []
+        try:
+            ex.call_funcinfo(finfo, [obj, key[0:1], key[1:2], mode], {"__kwmap__": kw}, verifying=False)
+            outcome = ("return", None)
+        except PyRaise as pr:
+            outcome = ("raise", pr.exc)
+        k = outcome[0] if outcome[0] == "return" else "raise:" + outcome[1].cls.__name__
+        fres.outcomes[k] = fres.outcomes.get(k, 0) + 1
+        pdict = st.ghost.get("kw_pdict")
+        dname = _def_name(pdict, mode)
+        lab = f"{label[:-1]} {dname}]"
+        if outcome[0] == "raise":
+            exc = outcome[1]
+            import pyubx2.exceptions as ube
+            cfgval = (key == b"\x06\x8b" and mode == 0) or (key == b"\x06\x8a" and mode == 1)
+            if (pdict is None or cfgval) and exc.cls is ube.UBXMessageError:
+                # no definition can be selected from keywords (payload-only messages, unknown discriminator)
+                st.prove(f"{lab}/C03:selector-rejects-with-UBXMessageError", True, kind="raises")
+                return
+            pl = st.rec(obj)["fields"].get("_payload")
+            too_long = False
+            if isinstance(pl, SBytes) and exc.cls is ube.UBXTypeError:
+                too_long = mk_bool(zint(pl.length()) > 65535)  # the frame's 16-bit length field cannot hold it
+            if flavour == "anydisc":
+                st.prove(f"{lab}/C15:refused-with-UBX-error", exc.cls in (ube.UBXMessageError, ube.UBXTypeError), kind="raises",
+                         detail=f"a bad discriminator value escapes as {exc.cls.__name__}", assume_after=False)
+                return
+            st.prove(f"{lab}/C03:in-range-values-accepted", too_long, kind="raises",
+                     detail=f"in-range keyword values are rejected with {exc.cls.__name__} although the payload fits a frame",
+                     assume_after=False)
+            return
+        check_post(ex, reg, contract, finfo, cfr, outcome, lab, obj.id)
+        if flavour == "typed":
+            check_built_payload(ex, obj, prov, pdict, lab, mode, key)
+        else:
+            st.prove(f"{lab}/C15:refused-with-UBX-error", True, kind="raises")
+
+    from .reader_units import explore
+    explore(col, reg, label if flavour == "typed" else label.replace("kwinit[", "kwinit-anydisc["), body)
+
+
+def _def_name(pdict, mode):
+    if pdict is None:
+        return "no-definition"
+    _, _, tabs = tables()
+    for nm, d in tabs[mode].items():
+        if d is pdict:
+            return nm
+    for t in tabs:
+        for nm, d in t.items():
+            if d is pdict:
+                return nm
+    return "?"
+
+
+def check_built_payload(ex, obj, prov, pdict, lab, mode, key):
+    from contracts.oracle import expected_layout, parse_def, static_size
+    st = ex.st
+    f = st.rec(obj)["fields"]
+    P = f.get("_payload")
+    P = P if isinstance(P, SBytes) else (SBytes.lit(P) if isinstance(P, (bytes, bytearray)) else None)
+    if P is None or pdict is None:
+        return
+    if st.ghost.get("kw_symbolic_group"):
+        # members of symbolic groups were checked per arbitrary iteration; top-level fields below
+        pass
+    try:
+        exp = expected_layout(ex, pdict, P, True, (MODES[mode], key))
+    except Unsupported as u:
+        raise
+    # every top-level field / bitfield of the built payload holds the supplied (or nominal) value
+    for bf in _bitfields_of(pdict):
+        _check_kw_bitfield(ex, prov, lab, bf.name, bf.flags, exp.leaves[bf.name]["raw"], lambda fn: fn, bf.name)
+    for name, leaf in exp.leaves.items():
+        typ, scale = leaf["typ"], leaf["scale"]
+        raw = leaf["raw"]
+        if typ == "flag":
+            continue
+        if typ == "CH" or name in exp.leaves and typ[0] == "X" and _is_bitfield(pdict, name):
+            continue
+        n = int(typ[1:4])
+        if typ[0] in "EILU":
+            eff = prov.effective(name, 0)
+            if not isinstance(eff, SFloat) and isinstance(scale, int) and scale != 1:
+                st.prove(f"{lab}/C03:field:{name}", ex.bm.equals(raw, mk_int(zint(eff) / scale)), kind="ensures",
+                         detail=f"raw value of {name} == supplied / {scale} (supplied value is raw * scale; 0 when omitted)",
+                         assume_after=False)
+            elif isinstance(eff, SFloat):
+                from .values import fdiv, fconst, f2i, i2f
+                c = fconst(float(scale)) if not isinstance(scale, int) else i2f(z3.IntVal(scale))
+                want = mk_int(f2i(fdiv(eff.e, c)))
+                st.prove(f"{lab}/C03:field:{name}", ex.bm.equals(raw, want), kind="ensures",
+                         detail=f"raw value of scaled {name} == int(supplied / scale) (0 when omitted) [float plumbing]",
+                         assume_after=False)
+            else:
+                st.prove(f"{lab}/C03:field:{name}", ex.bm.equals(raw, eff), kind="ensures",
+                         detail=f"{name} in the built payload == supplied value (0 when omitted)", assume_after=False)
+        elif typ[0] in "XC":
+            eff = prov.effective(name, bytes(n))
+            ok = ex.bm.equals(raw, eff)
+            st.prove(f"{lab}/C03:field:{name}", ok, kind="ensures", detail=f"bytes of {name} == supplied (zeros when omitted)",
+                     assume_after=False)
+    # total length (static part; symbolic groups add count * G, checked through conf of the built payload)
+    for c in exp.conf:
+        st.prove(f"{lab}/C03:length", c, kind="ensures", detail="built payload has exactly the length the definition implies "
+                 "(group counts == the supplied size attributes)", assume_after=False)
+
+
+def _is_bitfield(pdict, name):
+    v = pdict.get(name)
+    return isinstance(v, tuple) and isinstance(v[0], str) and re.fullmatch(r"X\d{3}", v[0]) is not None
+
+
+_KW_NAME_RE = re.compile(r"kwinit\[(GET|SET|POLL) ([0-9a-f]{4}) [^\]]*\]/(.*)")
+
+
+def replay_kwinit(o):
+    """native confirmation of a failed keyword-mode obligation: build the message of that class/ID from in-range keyword
+    values (the counter-model's where available, then seeded random ones), parse the serialization back and compare the
+    supplied values with the parsed ones and the payload length with the definition's"""
+    import random
+    from pyubx2 import UBXMessage, UBXReader
+    import pyubx2.exceptions as ube
+    from contracts.oracle import parse_def, Leaf, Bitfield, Group, native_expected
+    info = {"reproduced": False}
+    m = _KW_NAME_RE.match(o.name)
+    unit = re.match(r"kwinit\[(GET|SET|POLL):([0-9a-f]{4})\]", o.unit or "")
+    if m:
+        mode, key = MODES.index(m.group(1)), bytes.fromhex(m.group(2))
+    elif unit:
+        mode, key = MODES.index(unit.group(1)), bytes.fromhex(unit.group(2))
+    else:
+        info["note"] = "obligation name not understood by the keyword replayer"
+        return info
+    ids, _, paytabs = tables()
+    rnd = random.Random(2024)
+    model_kw = {k[3:]: v for k, v in (o.inputs or {}).items() if k.startswith("kw_") and isinstance(v, (int, bytes))}
+    names = sorted({v for k, v in ids.items() if k[0:2] == key})
+    tries = 0
+    for attempt in range(400):
+        for nm in names:
+            defn = paytabs[mode].get(nm)
+            if defn is None:
+                continue
+            ents = parse_def(defn)
+            kw = {}
+
+            def gen(entries, suffix, counts):
+                for e in entries:
+                    if isinstance(e, Leaf) and e.typ != "CH" and e.scale is None and e.typ[0] in "EILUXC":
+                        n = e.size
+                        if e.typ[0] in "XC":
+                            kw[e.name + suffix] = bytes(rnd.randrange(256) for _ in range(n))
+                        elif e.typ[0] == "I":
+                            kw[e.name + suffix] = rnd.randrange(-(1 << (8 * n - 1)), 1 << (8 * n - 1))
+                        else:
+                            kw[e.name + suffix] = rnd.randrange(1 << min(8 * n, 64))
+                    elif isinstance(e, Bitfield):
+                        for fn, w in e.flags:
+                            if not fn.startswith("reserved"):
+                                kw[fn + suffix] = rnd.randrange(1 << w)
+                    elif isinstance(e, Group):
+                        cnt = e.count if isinstance(e.count, int) else None
+                        if cnt is None and isinstance(e.count, str) and e.count != "None":
+                            cnt = rnd.randrange(0, 3)
+                            kw[e.count] = cnt
+                        for j in range(1, (cnt or 0) + 1):
+                            gen(e.entries, suffix + f"_{j:02d}", counts)
+
+            gen(ents, "", {})
+            if attempt == 0:
+                kw.update({k: v for k, v in model_kw.items() if k in kw})
+            if len([k for k in ids if k[0:2] == key and len(k) == 3]) and "type" in kw:
+                k3 = [k for k, v in ids.items() if v == nm]
+                if k3 and len(k3[0]) == 3:
+                    kw["type"] = k3[0][2]
+            if not kw:
+                continue
+            tries += 1
+            try:
+                msg = UBXMessage(key[0:1], key[1:2], mode, **kw)
+                back = UBXReader.parse(msg.serialize(), msgmode=mode)
+            except (ube.UBXMessageError, ube.UBXTypeError, ube.UBXParseError) as e:
+                if "must include" in str(e) or "Unknown message type" in str(e):
+                    continue
+                info.update(reproduced=True, observed=f"{type(e).__name__}: {e}"[:300], kwargs=repr(kw)[:600])
+                return info
+            except Exception as e:  # noqa
+                info.update(reproduced=True, observed=f"{type(e).__name__}: {e}"[:300], kwargs=repr(kw)[:600])
+                return info
+            if back.identity != msg.identity:
+                continue
+            bad = [k for k, v in kw.items() if getattr(back, k, v) != v]
+            if bad:
+                info.update(reproduced=True, kwargs=repr(kw)[:600],
+                            observed=f"{bad[0]}: supplied {kw[bad[0]]!r}, payload {msg.payload.hex()[:80]} parses to {getattr(back, bad[0], None)!r}")
+                return info
+    info["note"] = f"native search: {tries} keyword sets built and parsed back without a difference"
     return info
